@@ -447,3 +447,51 @@ def noexcept_rule(chk, db, rule, rects, minimum=1, text=None):
             ir.fn_label(f), 'and calls only non-throwing operations' if not throwing else
             'but calls %s (line %s), which may throw: the exception would terminate the program' % (throwing[0][0][:80], throwing[0][1])),
             function=ir.fn_label(f))
+
+
+def copy_not_hijacked(chk, db, rule, rects, minimum=4, text=None):
+    """CH: constructing an object from ONE argument of its own class type (any cv, lvalue or rvalue, or a type derived from it)
+    resolves to the copy / move constructor, never to a converting or forwarding template.  Read off the resolved callee of
+    every such construction in the analysed units (the probes copy each value type from non-const lvalues, which is where a
+    forwarding `T(U&&)` wins overload resolution)."""
+    from . import facts, ir
+    chk.rule(rule, text or 'a construction from an object of the same class resolves to the copy / move constructor', minimum=minimum)
+    seen = {}
+
+    def strip(t):
+        t = (t or '').replace('const ', '').strip()
+        while t.endswith('&'):
+            t = t[:-1].strip()
+        return t
+
+    def bases_of(q, depth=0):
+        out = {q}
+        r = db.records.get(q)
+        if r and depth < 4:
+            for b in r.get('bases', []):
+                bq = b.get('q') if isinstance(b, dict) else b
+                if bq:
+                    out |= bases_of(bq, depth + 1)
+        return out
+    for f in list(db.fns) + list(getattr(db, 'drivers', [])):
+        roots = ([f['body']] if 'body' in f else []) + [i.get('e') for i in f.get('inits', []) if i.get('e')]
+        for r in roots:
+            for y in ir.walk(r):
+                if y.get('k') != 'ctor' or len(y.get('args', [])) != 1:
+                    continue
+                cal = y.get('callee') or {}
+                rec = cal.get('rec')
+                if not rec or not any(cal.get('rect') == x for x in rects):
+                    continue
+                a = y['args'][0]
+                at = strip(ir.strip_all_casts(a).get('t') or a.get('t'))
+                if rec not in bases_of(at):
+                    continue
+                key = (f['file'], y.get('loc', {}).get('l'), y.get('loc', {}).get('c'), rec)
+                ok = bool(y.get('copymove'))
+                if key not in seen or (not ok and seen[key][0]):
+                    seen[key] = (ok, f, at)
+    for (file, line, col, rec), (ok, f, at) in sorted(seen.items()):
+        chk.decide(ok, rule, '%s:%s:%s' % (file, line, col), '%s constructed from a %s: %s' % (
+            rec.replace('nop::', '')[:70], at.replace('nop::', '')[:60], 'copy / move constructor selected' if ok else
+            'a converting / forwarding constructor is selected instead of the copy constructor'), function=ir.fn_label(f))
